@@ -14,7 +14,8 @@ from vpc.core import cN, cbool, clist, copt, cstr, cpair
 IMPORTS = "Require Import V.model.SvcArgs."
 THEOREMS = ["install_upgrade_equiv", "upgrade_keeps_definition", "upgrade_port_is_the_only_difference",
             "every_installed_flag_is_known", "interp_install_is_intended", "written_args_conflict_free",
-            "builders_match_source", "network_id_reaches_protocol_strings"]
+            "builders_match_source", "network_id_reaches_protocol_strings", "lifecycle_keeps_settings",
+            "evm_subcommand_wins"]
 RULE = ("option combinations over 27 parameters (peers: first/local/addrs/urls/testnet/ignore-cache/cache dir; "
         "network id, home-network, log format, upnp, ip, node/metrics/rpc ports, metrics server, owner (incl. upper "
         "case), log-file limits, rewards address, EVM network incl. custom, auto-restart, environment, user, user "
@@ -40,6 +41,10 @@ REW_B = "0x8464135c8F25Da09e49BC8782676a84730C318bC"
 CUSTOM = {"url": "http://localhost:8545", "token": "0x5FbDB2315678afecb367f032d93F642f64180aa3",
           "payments": "0x8464135c8F25Da09e49BC8782676a84730C318bC"}
 
+# a service environment that names ANOTHER custom EVM network than any written sub-command
+ENV_CUSTOM = [["RPC_URL", "http://other.example:9999/"], ["PAYMENT_TOKEN_ADDRESS", "0x1111111111111111111111111111111111111111"],
+              ["DATA_PAYMENTS_ADDRESS", "0x2222222222222222222222222222222222222222"], ["UNRELATED", "x"]]
+
 PARAMS = [
     ("first", [False, True]), ("local", [False, True]), ("addrs", [[], [PEER_A], [PEER_A, PEER_B]]),
     ("urls", [[], ["http://a.example/contacts"], ["http://a.example/c", "https://b.example/d?x=1"]]),
@@ -48,9 +53,12 @@ PARAMS = [
     ("upnp", [False, True]), ("ip", [None, "10.0.0.1"]), ("node_port", [None, 12000]),
     ("metrics_port", [None, 13000]), ("enable_metrics", [False, True]), ("owner", [None, "bob", "Alice Smith"]),
     ("max_arch", [None, 7]), ("max_log", [None, 9]), ("rewards", [REW_A, REW_B]),
-    ("evm", ["one", "sepolia", CUSTOM]), ("auto_restart", [False, True]), ("env", [None, [["K", "V"], ["RUST_LOG", "a=b,c"]]]),
+    ("evm", ["one", "sepolia", CUSTOM]), ("auto_restart", [False, True]),
+    ("env", [None, [["K", "V"], ["RUST_LOG", "a=b,c"]], [["EVM_NETWORK", "arbitrum-sepolia"], ["K", "V"]],
+             [["EVM_NETWORK", "arbitrum-one"]], ENV_CUSTOM]),
     ("user", [None, "root"]), ("user_mode", [False, True]), ("rpc_ip", [None, "1.2.3.4"]), ("rpc_port", [8081, None]),
-    ("observed_port", [None, 12001]), ("upgrade_env", [None, [["X", "Y"]]]),
+    ("observed_port", [None, 12001]), ("upgrade_env", [None, [["X", "Y"]], [["EVM_NETWORK", "arbitrum-sepolia"]], ENV_CUSTOM]),
+    ("lifecycle", [[], ["start"], ["start", "stop"], ["refresh"], ["start", "refresh", "stop", "refresh", "start"]]),
 ]
 PEER_KEYS = ("first", "local", "addrs", "urls", "testnet", "ignore_cache", "cache_dir")
 
@@ -163,6 +171,26 @@ def c_cfg(c, o, observed=False):
     return "(mkCfg %s)" % " ".join(fields)
 
 
+def listen_port(c):
+    """the port the running node reports (harness LiveRpc)"""
+    return c["observed_port"] if c["observed_port"] is not None else (c["node_port"] if c["node_port"] is not None else 45000)
+
+
+def upgrade_port(c):
+    """the --port the upgrade is expected to carry: the observed one once the node has been started"""
+    life = c.get("lifecycle") or []
+    if "start" in life or (not life and c["observed_port"] is not None):
+        return listen_port(c)
+    return c["node_port"]
+
+
+def c_life(c):
+    life = c.get("lifecycle") or []
+    if not life:
+        return clist(["(LStart %s)" % cN(c["observed_port"])] if c["observed_port"] is not None else [])
+    return clist([{"start": "(LStart %s)" % cN(listen_port(c)), "stop": "LStop", "refresh": "LRefresh"}[x] for x in life])
+
+
 def c_env(e):
     return copt(e, lambda l: clist([cpair(cstr(k), cstr(v)) for k, v in l]))
 
@@ -177,10 +205,10 @@ def upgrade_env(c):
 
 
 def model_term(c, o):
-    if "panic" in o or "add_error" in o or "upgrade_error" in o:
+    if "panic" in o or "add_error" in o or "upgrade_error" in o or "lifecycle_error" in o:
         return "false"
-    t = "agree_ctxs %s %s %s (mkU false %s) %s %s" % (
-        c_cfg(c, o), c_env(c["env"]), copt(c["observed_port"], cN), c_env(upgrade_env(c)),
+    t = "agree_ctxs_life %s %s %s (mkU false %s) %s %s" % (
+        c_cfg(c, o), c_env(c["env"]), c_life(c), c_env(upgrade_env(c)),
         c_ctx(o["install"]), c_ctx(o["upgrade"]))
     # what the node reports it runs with == the model's protocol strings for this configuration
     for which in ("install", "upgrade"):
@@ -191,6 +219,10 @@ def model_term(c, o):
                 return "false"
             t += " && agree_protocol %s %s %s" % (c_cfg(c, o), cstr(pr["network_id"]), clist(
                 [cstr(pr[k]) for k in ("identify_node", "identify_client", "req_response", "identify_protocol")]))
+            ev = evm_report(r)
+            if ev is None:
+                return "false"
+            t += " && agree_evm %s %s %s" % (c_cfg(c, o), c_env(o[which]["env"]), cstr(ev))
     return t
 
 
@@ -271,6 +303,11 @@ def protocol_report(r):
     return d if all(k in d for k in PROTO_KEYS) else None
 
 
+def evm_report(r):
+    m = re.search(r'^VERIF_EVM resolved="(.*)"$', r.get("dump", ""), re.M)
+    return m.group(1) if m else None
+
+
 def effects(c, o, which, r):
     """arguments whose interpretation is an EFFECT: after antnode's real start-up (root dir + key, logging, first
     bootstrap-cache flush, HOME inside the scratch dir) every file must be where the definition says"""
@@ -321,6 +358,14 @@ def effects(c, o, which, r):
         if rec["evm"]["token"].lower() not in low or rec["evm"]["payments"].lower() not in low:
             bad.append("effective custom EVM network does not carry the configured contract addresses")
     out = [("effect-at-intended-location", "%s-time arguments: %s" % (which, "; ".join(bad)))] if bad else []
+    # the EVM network the node resolves is the one named by the written sub-command, whatever the service
+    # environment the manager wrote holds
+    ev = evm_report(r)
+    want_ev = ("evm-custom %s %s %s" % (rec["evm"]["url"], rec["evm"]["token"], rec["evm"]["payments"])) \
+        if isinstance(rec["evm"], dict) else rec["evm"]
+    if ev != want_ev:
+        out.append(("evm-network-overridden", "%s-time arguments name %r but the node resolves %r (service environment %s)"
+                    % (which, want_ev, ev, o[which]["env"])))
     if net_bad:
         out.append(("network-id-not-effective", "%s-time arguments: %s" % (which, net_bad)))
     return out
@@ -334,9 +379,9 @@ def pairs(args):
 def oracle(c, o):
     if "panic" in o:
         return [("panic", "the builders panicked: %s" % o["panic"])]
-    if "add_error" in o or "upgrade_error" in o:
-        return [("builder-error", "add_node / build_upgrade_install_context failed on an installable combination: %s"
-                 % (o.get("add_error") or o.get("upgrade_error")))]
+    if "add_error" in o or "upgrade_error" in o or "lifecycle_error" in o:
+        return [("builder-error", "add_node / lifecycle / build_upgrade_install_context failed on an installable combination: %s"
+                 % (o.get("add_error") or o.get("upgrade_error") or o.get("lifecycle_error")))]
     v = []
     ins, upg = o["install"], o["upgrade"]
     # same program, user, label; nothing else in the definition
@@ -358,16 +403,17 @@ def oracle(c, o):
             del a[i:i + 2]
         return a
     a_i, a_u = ins["args"], upg["args"]
-    if c["observed_port"] is not None:
-        if "--port" not in a_u or a_u[a_u.index("--port") + 1] != str(c["observed_port"]):
-            v.append(("observed-port-not-used", "the upgrade does not pass the observed port %s" % c["observed_port"]))
+    eff_port = upgrade_port(c)
+    if eff_port != c["node_port"]:
+        if "--port" not in a_u or a_u[a_u.index("--port") + 1] != str(eff_port):
+            v.append(("observed-port-not-used", "the upgrade does not pass the observed port %s" % eff_port))
         a_i, a_u = strip_port(a_i), strip_port(a_u)
     if sorted(a_i) != sorted(a_u) or len(a_i) != len(a_u):
         v.append(("arguments-differ", "upgrade arguments are not a rearrangement of the installed ones: only installed %s, only upgraded %s"
                   % ([x for x in a_i if x not in a_u], [x for x in a_u if x not in a_i])))
     an = o.get("antnode")
     if an:
-        for which, port in (("install", c["node_port"]), ("upgrade", c["observed_port"] if c["observed_port"] is not None else c["node_port"])):
+        for which, port in (("install", c["node_port"]), ("upgrade", eff_port)):
             r = an[which]
             if r["code"] != 0:
                 cls = "genesis-with-peers-refused" if (c["peers"]["first"] and (c["peers"]["addrs"] or c["peers"]["urls"])) else "antnode-refuses"
@@ -383,7 +429,7 @@ def oracle(c, o):
             r = an[which]
             if r["code"] == 0:
                 v += effects(c, o, which, r)
-        if an["install"]["code"] == 0 and an["upgrade"]["code"] == 0 and c["observed_port"] is None \
+        if an["install"]["code"] == 0 and an["upgrade"]["code"] == 0 and eff_port == c["node_port"] \
                 and an["install"]["dump"] != an["upgrade"]["dump"]:
             v.append(("interpretations-differ", "antnode parses the install-time and upgrade-time arguments to different options"))
     seen, out = set(), []
